@@ -237,6 +237,19 @@ def run_limited_transfers(res: dict, params: dict, check_bound):
             upc.network.set_upload_speed_limit(up_limit)
         if dn_limit:
             dnc.network.set_download_speed_limit(dn_limit)
+        # the file connection may have to be made indirectly (the uploader's direct connects are refused, the
+        # downloader pierces): every way a connection comes about has to put it under the limit in force
+        prng = random.Random(f"{params['seed']}:C20:T:path:{params['i']}")
+        if prng.random() < 0.4:
+            from .simnet import ConnPlan as _CP
+
+            def planner(node, host, port, attempt):
+                plan = _CP(latency=prng.uniform(0.001, 0.02))
+                if node == 'up' and port in (dn.port, dn.obf_port):
+                    plan.connect = 'refuse'
+                return plan
+            w.net.planner = planner
+            runner.add_obs(res, 'e2e_runs_with_indirect_file_connections')
         t_start = w.loop.time()
         events['changes'].append(('up', 0, t_start, up_limit * 1024))
         events['changes'].append(('dn', 0, t_start, dn_limit * 1024))
@@ -338,6 +351,13 @@ def run_limited_transfers(res: dict, params: dict, check_bound):
     for side, key in (('up', 'up_writes'), ('dn', 'dn_reads')):
         grants = events[key]
         changes = [(s, t, l) for sd, s, t, l in events['changes'] if sd == side]
+        # a chunk moved without any limiter although a limit was configured when its call started
+        for g in grants:
+            conf = [c for c in changes if c[0] <= g[5]] if len(g) > 5 else []
+            if conf and conf[-1][2] > 0 and g[4] == 0 and (len(changes) == 1 or g[5] > changes[-1][0]):
+                runner.violation(res, f"unlimited-limiter-used-while-a-limit-is-configured:{'upload' if side == 'up' else 'download'}",
+                                 configured_bps=conf[-1][2], t=round(g[1] - 1000.0, 4), chunk=g[2])
+                break
         label = 'e2e-upload' if side == 'up' else 'e2e-download'
         check_bound(res, grants, changes, label, inflight_bytes=128 * n_files)
         runner.add_obs(res, 'grants_judged', sum(1 for g in grants if g[4] > 0))
